@@ -34,9 +34,9 @@ vars == <<tid, l, vol, comp, hn, wl, live, cok, robv, cfg>>
 HdrT0(tr) == [dev |-> tr.dev, unitc |-> tr.unitc, millis |-> tr.millis, k |-> tr.k, wlmax |-> tr.wl.maxv, wlmaxc |-> tr.wl.maxc,
              autosplit |-> tr.wl.autosplit, diti |-> tr.wl.diti, lw |-> tr.lw]
 \* lim: the public volume limits <<min_volume, max_volume>> of every labware (they are plain attributes as well)
-CfgOf(tr) == [maxv |-> tr.wl.maxv, maxc |-> tr.wl.maxc, autosplit |-> tr.wl.autosplit,
+CfgOf(tr) == [maxv |-> tr.wl.maxv, maxc |-> tr.wl.maxc, autosplit |-> tr.wl.autosplit, diti |-> tr.wl.diti,
               lim |-> [k \in 1..Len(tr.lw) |-> <<tr.lw[k].minv, tr.lw[k].maxv>>]]
-HdrT(tr) == [HdrT0(tr) EXCEPT !.wlmax = cfg.maxv, !.wlmaxc = cfg.maxc, !.autosplit = cfg.autosplit,
+HdrT(tr) == [HdrT0(tr) EXCEPT !.wlmax = cfg.maxv, !.wlmaxc = cfg.maxc, !.autosplit = cfg.autosplit, !.diti = cfg.diti,
                               !.lw = [k \in 1..Len(tr.lw) |-> [tr.lw[k] EXCEPT !.minv = cfg.lim[k][1], !.maxv = cfg.lim[k][2]]]]
 
 EmptyComp(tr) == [k \in 1..Len(tr.lw) |-> [i \in 1..Len(tr.lw[k].init.vol) |-> {}]]
@@ -653,7 +653,7 @@ InitOf(t) == LET tr == Traces[t] IN
    hn |-> [k \in 1..NLw(tr) |-> tr.lw[k].init.hn]]
 
 Init == /\ tid = 0 /\ l = 0 /\ vol = <<>> /\ comp = <<>> /\ hn = <<>> /\ wl = <<>> /\ live = TRUE /\ cok = TRUE /\ robv = <<>>
-        /\ cfg = [maxv |-> 0, maxc |-> 0, autosplit |-> TRUE, lim |-> <<>>]
+        /\ cfg = [maxv |-> 0, maxc |-> 0, autosplit |-> TRUE, diti |-> FALSE, lim |-> <<>>]
         /\ InitRegisters
 
 \* first step of a trace: judge the constructor observations, load the initial state
@@ -675,7 +675,7 @@ Step ==
      /\ live' = (live /\ ev.out = "ok" /\ ~Untracked(ev))
      /\ cok' = (cok /\ ev.cs)
      /\ cfg' = IF ev.op = "setconfig" /\ ev.out = "ok"
-               THEN [cfg EXCEPT !.maxv = ev.a.maxv, !.maxc = ev.a.maxc, !.autosplit = ev.a.autosplit]
+               THEN [cfg EXCEPT !.maxv = ev.a.maxv, !.maxc = ev.a.maxc, !.autosplit = ev.a.autosplit, !.diti = ev.a.diti]
                ELSE IF ev.op = "setlimits" /\ ev.out = "ok"
                THEN [cfg EXCEPT !.lim[ev.a.lw] = <<ev.a.minv, ev.a.maxv>>]
                ELSE cfg
